@@ -1,18 +1,499 @@
-//! C04 — not built yet (stub).
+//! C04 — re-saving is stable: generations are a fixed point, untouched content survives, edits are local,
+//! saving twice gives the same parts.  Histories over {S = save+reload, E(c,k) = single-cell edit}.
+use crate::c02::{build_channel, build_lattice, channel_accepts, corpus_files, CHANNELS, FEATURES, SPECIALS};
 use crate::common::*;
+use crate::dump::*;
+use crate::e1::*;
 use crate::pool::*;
-use serde_json::Value;
+use serde_json::{json, Map, Value};
+use umya_spreadsheet::*;
 
 pub fn entry() -> crate::Entry {
     crate::Entry { id: "C04", run, space, replay }
 }
-pub fn space(_tier: Tier, _id: &str) -> Option<Box<dyn Space>> {
-    None
+
+pub const EDIT_KINDS: [&str; 4] = ["set-text", "set-number", "set-blank", "remove"];
+
+/// Full dump with the normalisations the writer is documented to perform removed on BOTH sides
+/// (each one is listed in the evidence):
+///  * blank cells without formatting and without hyperlink are dropped,
+///  * row entries that carry nothing (default height, not hidden, no style) are dropped,
+///  * column entries that carry only the default width are dropped.
+pub fn full_norm(b: &Spreadsheet, defaults: &Map<String, Value>) -> Value {
+    let mut v = book_p(b, Opts::FULL);
+    crate::c06::canon_names(&mut v);
+    // effective formatting: a component that was never set equals the workbook's default component
+    fn eff(st: &mut Value, defaults: &Map<String, Value>) {
+        if let Some(m) = st.as_object_mut() {
+            for (k, d) in defaults {
+                if m.get(k).map(|x| x.is_null()).unwrap_or(false) {
+                    m.insert(k.clone(), d.clone());
+                }
+            }
+        }
+    }
+    if let Some(sheets) = v["sheets"].as_array_mut() {
+        for s in sheets {
+            for coll in ["cells", "rows", "cols"] {
+                if let Some(m) = s[coll].as_object_mut() {
+                    for (_, c) in m.iter_mut() {
+                        if c.get("style").is_some() {
+                            eff(&mut c["style"], defaults);
+                        }
+                    }
+                }
+            }
+        }
+    }
+    let mut default_style = style_p(&Style::default());
+    eff(&mut default_style, defaults);
+    let dcol = Column::default();
+    let drow = Row::default();
+    let dcol_p = json!({"width": f64v(*dcol.get_width()), "hidden": dcol.get_hidden(), "best_fit": dcol.get_best_fit(), "style": default_style});
+    let drow_p = json!({"height": f64v(*drow.get_height()), "custom_height": drow.get_custom_height(), "hidden": drow.get_hidden(), "style": default_style});
+    if let Some(sheets) = v["sheets"].as_array_mut() {
+        for s in sheets {
+            if let Some(cells) = s["cells"].as_object_mut() {
+                let drop: Vec<String> = cells
+                    .iter()
+                    .filter(|(_, c)| c["kind"] == json!("") && c["formula"] == json!("") && c["style"] == default_style && c.get("link").is_none())
+                    .map(|(k, _)| k.clone())
+                    .collect();
+                for k in drop {
+                    cells.remove(&k);
+                }
+            }
+            if let Some(rows) = s["rows"].as_object_mut() {
+                let drop: Vec<String> = rows.iter().filter(|(_, r)| **r == drow_p).map(|(k, _)| k.clone()).collect();
+                for k in drop {
+                    rows.remove(&k);
+                }
+            }
+            if let Some(cols) = s["cols"].as_object_mut() {
+                let drop: Vec<String> = cols.iter().filter(|(_, c)| **c == dcol_p).map(|(k, _)| k.clone()).collect();
+                for k in drop {
+                    cols.remove(&k);
+                }
+            }
+        }
+    }
+    v
 }
-fn replay(_tier: Tier, _case: &Value) -> Vec<Violation> {
-    vec![]
+
+/// What "component never set" looks like after a reload of THIS workbook: two control cells on an extra
+/// sheet of a copy (differential calibration, as in C05).
+pub fn calibrate_defaults(b: &Spreadsheet, light: bool) -> Map<String, Value> {
+    let mut d = Map::new();
+    let mut c = b.clone();
+    if c.new_sheet("__calibration__").is_err() {
+        return d;
+    }
+    let idx = c.get_sheet_count() - 1;
+    {
+        let ws = c.get_sheet_mut(&idx).unwrap();
+        let mut s1 = Style::default();
+        s1.get_numbering_format_mut().set_format_code("0.0000000");
+        ws.get_cell_mut("A1").set_value_number(1).set_style(s1);
+        let mut s2 = Style::default();
+        s2.get_alignment_mut().set_wrap_text(true);
+        ws.get_cell_mut("A2").set_value_number(2).set_style(s2);
+    }
+    if let Ok((_, c2)) = roundtrip(&c, light) {
+        if let Some(ws) = c2.get_sheet(&idx) {
+            let p1 = style_p(ws.get_style("A1"));
+            let p2 = style_p(ws.get_style("A2"));
+            for k in ["font", "fill", "borders", "alignment", "protection"] {
+                if !p1[k].is_null() {
+                    d.insert(k.to_string(), p1[k].clone());
+                }
+            }
+            if !p2["numfmt"].is_null() {
+                d.insert("numfmt".into(), p2["numfmt"].clone());
+            }
+        }
+    }
+    d
 }
-fn run(_ctx: &Ctx) -> i32 {
-    eprintln!("MACHINERY: C04 is not built yet");
-    2
+
+fn classify(path: &str, l: &str, r: &str) -> String {
+    let parts: Vec<&str> = path.split('/').filter(|s| !s.is_empty()).collect();
+    let field = if parts.first().map(|p| p.starts_with("sheets")).unwrap_or(false) { parts.get(1).cloned().unwrap_or("sheet") } else { parts.first().cloned().unwrap_or("") };
+    let field: String = field.chars().take_while(|c| *c != '[').collect();
+    let leaf: String = parts.last().cloned().unwrap_or("").chars().filter(|c| !c.is_ascii_digit() && *c != '[' && *c != ']' && *c != '#').collect();
+    let how = if l == "<absent>" {
+        "appeared"
+    } else if r == "<absent>" {
+        "lost"
+    } else {
+        "changed"
+    };
+    let sub = if field == "cells" && parts.len() > 3 { format!(".{}", parts[3].chars().take_while(|c| *c != '[').collect::<String>()) } else { String::new() };
+    let leaf = if leaf.starts_with('R') && leaf.contains('C') && leaf.len() < 4 { "cell".to_string() } else { leaf };
+    format!("{}{}-{}:{}", field, sub, how, leaf)
+}
+
+/// Report every difference class between two dumps (at most one violation per symptom).
+fn report_diffs(a: &Value, b: &Value, clause: &str, tags: &[String], case: &Value, sink: &mut Sink, limit: usize) -> usize {
+    let tg: Vec<&str> = tags.iter().map(|s| s.as_str()).collect();
+    let mut cur = a.clone();
+    let mut seen = std::collections::BTreeSet::new();
+    let mut n = 0;
+    while let Some((path, l, r)) = first_diff(&cur, b) {
+        let sym = classify(&path, &l, &r);
+        n += 1;
+        if seen.insert(sym.clone()) {
+            sink.violations.push(Violation::new(clause, &sym, &tg, case.clone(), format!("{}: {} vs {}", path, l, r)));
+        }
+        if !crate::c01::patch_pub(&mut cur, b, &path) || n >= limit {
+            break;
+        }
+    }
+    n
+}
+
+fn rt(b: &Spreadsheet, light: bool) -> Result<(Vec<u8>, Spreadsheet), String> {
+    roundtrip(b, light)
+}
+
+/// Part list and normalised part contents of a package (docProps excluded: they carry timestamps;
+/// count attributes of the shared string table excluded: a registration counter, not content).
+fn parts_of(bytes: &[u8]) -> Vec<(String, u64)> {
+    let mut out = vec![];
+    if let Ok(mut z) = zip::ZipArchive::new(std::io::Cursor::new(bytes)) {
+        for i in 0..z.len() {
+            if let Ok(mut f) = z.by_index(i) {
+                use std::io::Read;
+                let name = f.name().to_string();
+                if name.starts_with("docProps/") {
+                    out.push((name, 0));
+                    continue;
+                }
+                let mut data = vec![];
+                let _ = f.read_to_end(&mut data);
+                if name.ends_with("sharedStrings.xml") {
+                    let t = String::from_utf8_lossy(&data).to_string();
+                    let t = strip_attr(&strip_attr(&t, "count"), "uniqueCount");
+                    out.push((name, fnv(t.as_bytes())));
+                } else {
+                    out.push((name, fnv(&data)));
+                }
+            }
+        }
+    }
+    out.sort();
+    out
+}
+fn strip_attr(s: &str, name: &str) -> String {
+    let pat = format!(" {}=\"", name);
+    let mut out = String::new();
+    let mut rest = s;
+    while let Some(p) = rest.find(&pat) {
+        out.push_str(&rest[..p]);
+        let after = &rest[p + pat.len()..];
+        match after.find('"') {
+            Some(q) => rest = &after[q + 1..],
+            None => {
+                rest = "";
+            }
+        }
+        if out.len() > 4096 {
+            break; // only the root element's attributes matter
+        }
+    }
+    out.push_str(rest);
+    out
+}
+
+struct Source {
+    kind: &'static str,
+    name: String,
+    tags: Vec<String>,
+    light: bool,
+}
+
+enum Origin {
+    Corpus(String),
+    Lattice(u32),
+    Channel(usize, usize),
+}
+
+fn load_origin(o: &Origin) -> Result<Spreadsheet, String> {
+    match o {
+        Origin::Corpus(p) => {
+            let data = std::fs::read(p).map_err(|e| e.to_string())?;
+            load_bytes(&data, true)
+        }
+        Origin::Lattice(bits) => std::panic::catch_unwind(|| build_lattice(*bits, false)).map_err(|e| panic_msg(&e)),
+        Origin::Channel(c, s) => std::panic::catch_unwind(|| build_channel(CHANNELS[*c], SPECIALS[*s].1)).map_err(|e| panic_msg(&e)),
+    }
+}
+
+struct Stability {
+    items: Vec<(Origin, Source)>,
+    edit_cap: usize,
+    edit_budget_ms: u64,
+}
+
+fn content_tags(model: &Value, tags: &mut Vec<String>) {
+    let s = model.to_string();
+    if s.contains("\\\\r") {
+        tags.push("text-has-cr".into());
+    }
+}
+
+impl Space for Stability {
+    fn len(&self) -> u64 {
+        self.items.len() as u64
+    }
+    fn describe(&self, i: u64) -> Value {
+        let s = &self.items[i as usize].1;
+        json!({"kind": s.kind, "source": s.name, "light": s.light, "histories": ["S","SS","SSS","E(c,k) S for every cell c (capped) and k in set-text/set-number/set-blank/remove", "save twice"]})
+    }
+    fn tags(&self, i: u64) -> Vec<String> {
+        self.items[i as usize].1.tags.clone()
+    }
+    fn run(&self, i: u64, sink: &mut Sink) {
+        let (origin, src) = &self.items[i as usize];
+        let t_case = std::time::Instant::now();
+        let case = self.describe(i);
+        let mut tags = src.tags.clone();
+        let tg0: Vec<&str> = src.tags.iter().map(|s| s.as_str()).collect();
+        let m0 = match load_origin(origin) {
+            Ok(b) => b,
+            Err(_) => {
+                sink.count("unreadable_sources", 1);
+                return;
+            }
+        };
+        let defaults = calibrate_defaults(&m0, src.light);
+        let d0 = full_norm(&m0, &defaults);
+        content_tags(&d0, &mut tags);
+        // generations
+        let mut dumps = vec![];
+        let t_gen = std::time::Instant::now();
+        let mut cur = m0.clone();
+        let mut bytes_gen = vec![];
+        for g in 1..=3 {
+            sink.beat.note(&format!("{} generation {}", src.name, g));
+            match rt(&cur, src.light) {
+                Ok((bytes, b2)) => {
+                    let d = full_norm(&b2, &defaults);
+                    sink.hashes.push(fnv(d.to_string().as_bytes()));
+                    dumps.push(d);
+                    bytes_gen.push(bytes);
+                    cur = b2;
+                    sink.count("transitions", 1);
+                }
+                Err(e) => {
+                    sink.violations.push(Violation::new("generation-succeeds", &format!("gen{}-failed:{}", g, panic_class(&e)), &tg0, case.clone(), e));
+                    return;
+                }
+            }
+        }
+        sink.evaluations += 1;
+        report_diffs(&d0, &dumps[0], "orig-equals-gen1", &tags, &case, sink, 60);
+        report_diffs(&dumps[0], &dumps[1], "gen1-equals-gen2", &tags, &case, sink, 60);
+        report_diffs(&dumps[1], &dumps[2], "gen2-equals-gen3", &tags, &case, sink, 60);
+        let heavy = self.edit_budget_ms < 10_000 && t_gen.elapsed().as_millis() as u64 / 3 > 700;
+        if heavy {
+            // quick tier: a source whose single generation costs > 0.7 s only gets the generation checks
+            sink.count("heavy_sources_generations_only", 1);
+            return;
+        }
+        // saving the same unchanged workbook twice: same part list, same (decoded) content
+        if let (Ok(a), Ok(b)) = (save_bytes(&cur, src.light), save_bytes(&cur, src.light)) {
+            sink.count("transitions", 2);
+            let na: Vec<String> = parts_of(&a).into_iter().map(|x| x.0).collect();
+            let nb: Vec<String> = parts_of(&b).into_iter().map(|x| x.0).collect();
+            let tg: Vec<&str> = tags.iter().map(|s| s.as_str()).collect();
+            if na != nb {
+                sink.violations.push(Violation::new("save-twice-same", "part-list-differs", &tg, case.clone(), format!("first {:?}\nsecond {:?}", na, nb)));
+            }
+            match (load_bytes(&a, true), load_bytes(&b, true)) {
+                (Ok(x), Ok(y)) => {
+                    report_diffs(&full_norm(&x, &defaults), &full_norm(&y, &defaults), "save-twice-same", &tags, &case, sink, 20);
+                }
+                _ => sink.violations.push(Violation::new("save-twice-same", "output-unreadable", &tg, case.clone(), "one of the two saves cannot be loaded".into())),
+            }
+        }
+        // edit locality, from the loaded workbook m0: A = S(m0), B = S(E(m0))
+        let base = &dumps[0];
+        let nsheets = m0.get_sheet_count();
+        let mut edits = 0usize;
+        // cost guard: a file whose single save+reload+dump is slow (e.g. 16382 expanded column entries) gets
+        // fewer edits; the cap is counted and reported, never silent
+        let per_rt_ms = (t_gen.elapsed().as_millis() as u64 / 3).max(1);
+        let max_edits = (self.edit_budget_ms / per_rt_ms).max(2) as usize;
+        for si in 0..nsheets {
+            let ws = match m0.get_sheet(&si) {
+                Some(w) => w,
+                None => continue,
+            };
+            let mut coords: Vec<(u32, u32)> = ws.get_cell_collection_sorted().iter().map(|c| (*c.get_coordinate().get_col_num(), *c.get_coordinate().get_row_num())).collect();
+            let last = coords.last().cloned();
+            coords.truncate(self.edit_cap);
+            if let Some(l) = last {
+                if !coords.contains(&l) {
+                    coords.push(l);
+                }
+            }
+            let (hc, hr) = ws.get_highest_column_and_row();
+            if hc < 16000 && hr < 1_000_000 {
+                coords.push((hc + 2, hr + 2)); // one fresh position
+            }
+            for (ci, (col, row)) in coords.iter().enumerate() {
+                for (k, kind) in EDIT_KINDS.iter().enumerate() {
+                    // all kinds for the first cells, then rotate kinds to keep the cost linear
+                    if ci >= 4 && (ci + k) % 4 != 0 {
+                        continue;
+                    }
+                    if edits >= max_edits {
+                        sink.count("edits_skipped_by_time_budget", 1);
+                        continue;
+                    }
+                    let mut b = m0.clone();
+                    {
+                        let w = b.get_sheet_mut(&si).unwrap();
+                        match *kind {
+                            "set-text" => {
+                                w.get_cell_mut((*col, *row)).set_value_string("EDITED & <new>");
+                            }
+                            "set-number" => {
+                                w.get_cell_mut((*col, *row)).set_value_number(12345.678);
+                            }
+                            "set-blank" => {
+                                w.get_cell_mut((*col, *row)).set_blank();
+                            }
+                            _ => {
+                                w.remove_cell((*col, *row));
+                            }
+                        }
+                    }
+                    sink.beat.note(&format!("{} edit sheet {} cell ({},{}) {}", src.name, si, col, row, kind));
+                    edits += 1;
+                    sink.count("transitions", 2);
+                    let ecase = json!({"source": case, "edit": {"sheet": si, "col": col, "row": row, "kind": kind}});
+                    let mut etags = tags.clone();
+                    etags.push(format!("edit:{}", kind));
+                    match rt(&b, src.light) {
+                        Err(e) => {
+                            let tg: Vec<&str> = etags.iter().map(|s| s.as_str()).collect();
+                            sink.violations.push(Violation::new("edit-save-succeeds", &format!("failed:{}", panic_class(&e)), &tg, ecase, e));
+                        }
+                        Ok((_, b2)) => {
+                            let d = full_norm(&b2, &defaults);
+                            // mask the edited cell, its row entry and its column entry on both sides
+                            let mut x = base.clone();
+                            let mut y = d;
+                            for v in [&mut x, &mut y] {
+                                if let Some(s) = v["sheets"].get_mut(si) {
+                                    if let Some(c) = s["cells"].as_object_mut() {
+                                        c.remove(&ckey(*col, *row));
+                                    }
+                                    if let Some(r) = s["rows"].as_object_mut() {
+                                        r.remove(&format!("{:07}", row));
+                                    }
+                                    if let Some(c) = s["cols"].as_object_mut() {
+                                        c.remove(&format!("{:05}", col));
+                                    }
+                                }
+                            }
+                            report_diffs(&x, &y, "edit-is-local", &etags, &ecase, sink, 20);
+                        }
+                    }
+                }
+            }
+        }
+        sink.count("edits", edits as u64);
+        if src.kind == "corpus" {
+            sink.count(&format!("ms[{}]", src.name), t_case.elapsed().as_millis() as u64);
+        }
+    }
+}
+
+fn lattice_subsets(tier: Tier) -> Vec<u32> {
+    let n = FEATURES.len() as u32;
+    let all = (1u32 << n) - 1;
+    let mut v: Vec<u32> = (0..=all).collect();
+    if tier == Tier::Quick {
+        v.retain(|s| s.count_ones() <= 1 || *s == all);
+    } else {
+        v.retain(|s| s.count_ones() <= 2 || (all & !s).count_ones() <= 1);
+    }
+    v.sort_by_key(|s| (s.count_ones(), *s));
+    v
+}
+
+pub fn space(tier: Tier, id: &str) -> Option<Box<dyn Space>> {
+    let mut items = vec![];
+    match id {
+        "corpus" => {
+            for f in corpus_files() {
+                let size = std::fs::metadata(&f).map(|m| m.len()).unwrap_or(0);
+                if tier == Tier::Quick && size > 60_000 {
+                    continue;
+                }
+                let name = f.rsplit('/').next().unwrap_or("").to_string();
+                for light in [false, true] {
+                    if light && tier == Tier::Quick {
+                        continue;
+                    }
+                    items.push((Origin::Corpus(f.clone()), Source { kind: "corpus", name: name.clone(), tags: vec![format!("corpus:{}", name)], light }));
+                }
+            }
+            Some(Box::new(Stability { items, edit_cap: if tier == Tier::Quick { 2 } else { 64 }, edit_budget_ms: if tier == Tier::Quick { 1500 } else { 60_000 } }))
+        }
+        "generated" => {
+            for s in lattice_subsets(tier) {
+                let mut tags: Vec<String> = (0..FEATURES.len()).filter(|k| s & (1 << k) != 0).map(|k| FEATURES[k].to_string()).collect();
+                if tags.is_empty() {
+                    tags.push("base".into());
+                }
+                let singles = tags.clone();
+                if singles.len() <= 3 {
+                    for a in 0..singles.len() {
+                        for b in a + 1..singles.len() {
+                            tags.push(format!("{}+{}", singles[a], singles[b]));
+                        }
+                    }
+                }
+                items.push((Origin::Lattice(s), Source { kind: "lattice", name: format!("lattice:{:011b}", s), tags, light: s % 2 == 1 }));
+            }
+            for (ci, ch) in CHANNELS.iter().enumerate() {
+                for (si, (sn, _)) in SPECIALS.iter().enumerate() {
+                    if channel_accepts(ch, sn) && !(*ch == "defined-name-formula" && *sn == "edge-blank") {
+                        items.push((Origin::Channel(ci, si), Source { kind: "channel", name: format!("{}/{}", ch, sn), tags: vec![format!("ch:{}", ch), format!("sp:{}", sn), format!("ch:{}+sp:{}", ch, sn)], light: (ci + si) % 2 == 1 }));
+                    }
+                }
+            }
+            Some(Box::new(Stability { items, edit_cap: 64, edit_budget_ms: if tier == Tier::Quick { 3000 } else { 60_000 } }))
+        }
+        _ => None,
+    }
+}
+
+fn replay(tier: Tier, case: &Value) -> Vec<Violation> {
+    let c = if case["source"].is_object() { &case["source"] } else { case };
+    replay_e1(space(tier, c["_space"].as_str().or(case["_space"].as_str()).unwrap_or("")), if c.get("_index").is_some() { c } else { case })
+}
+
+fn run(ctx: &Ctx) -> i32 {
+    let ids = ["generated", "corpus"];
+    let spaces = ids.iter().map(|id| (*id, space(ctx.tier, id).unwrap())).collect();
+    run_e1(
+        ctx,
+        E1Spec {
+            spaces,
+            cfg: PoolCfg { chunk: 1, case_timeout: std::time::Duration::from_secs(180), ..Default::default() },
+            level: "model_checking",
+            rule: "histories over {S = save+reload, E(c,k) = single-cell edit} from every initial state (corpus file / generated lattice workbook / channel workbook): S, SS, SSS; E(c,k) S for every cell c (capped per sheet, cap stated) + the last cell + one fresh position and k in {set text, set number, set blank, remove}; save twice. Oracle: full normalised dump gen1==gen2==gen3, orig==gen1, dump(E S) differs from dump(S) only in cell c and its row/column entry, two saves of one workbook have the same parts and part contents. states = distinct generation dumps, transitions = save/reload steps executed (each on the real library)".into(),
+            alphabets: json!({"edit_kinds": EDIT_KINDS, "corpus_files": corpus_files().len(), "lattice_subsets": lattice_subsets(ctx.tier).len(), "channels": CHANNELS.len(), "specials": SPECIALS.len()}),
+            bounds: json!({"generations": 3, "edit_time_budget_per_source_ms": if ctx.tier == Tier::Quick {1500} else {60000}, "edit_cap_per_sheet": if ctx.tier == Tier::Quick {"2 (corpus), 64 (generated)"} else {"64"}, "corpus": if ctx.tier == Tier::Quick {"files <= 60 kB, standard writer"} else {"all files, both writers"},
+                "normalised_away_on_both_sides": ["a style component that was never set == the workbook default component (calibrated per workbook)", "defined names compared by scope, not by holder object", "blank cells without formatting/hyperlink", "row entries carrying nothing", "column entries carrying only the default width", "docProps parts and sharedStrings count attributes in the save-twice comparison"]}),
+            exhaustive: true,
+            caps_hit: vec![],
+            assumptions: vec!["everything the library models = the full public-getter dump of harness/src/dump.rs".into()],
+            min_distinct: 20,
+        },
+    )
 }
